@@ -234,6 +234,10 @@ def models(rng, sid=None):
     if cplx:
         H1 = [[add(herm(mul(scal(g, gi), gen(0))), herm(mul(scal(h, hi), pw(gen(0), 2))))]]
     which = rng.choice([[1], [2], [1, 2]])
+    if sid is not None:
+        # fixed by the session number: the first two sessions of the family (every quick run) have masks that are NOT
+        # closed under products with the kept part ([1]: the a^2 terms are kept; [2]: the linear terms are kept)
+        which = [[1], [2], [1, 2]][((sid - 1) // len(FAMILIES)) % 3]
     return dict(kind=kind, modes=modes, r=1, block=[0], H={0: H0, 1: H1}, rules=[dict(kind="mask")],
                 scalar=True, fd="mask", mask_powers=which, band=2)
 
